@@ -6,6 +6,9 @@ L=${1:-/verif/work/seed_final.log}; : > $L
 if ! git -C /repo diff --quiet; then echo "/repo is dirty" >> $L; exit 2; fi
 for d in seeded/*/; do
   n=$(basename $d); p=${n:0:3}
+  # SKIP / ONLY: extended regular expressions on the property id (e.g. SKIP='C06|C10', ONLY='C06|C10')
+  [ -n "$SKIP" ] && echo $p | grep -Eq "^($SKIP)$" && continue
+  [ -n "$ONLY" ] && ! echo $p | grep -Eq "^($ONLY)$" && continue
   [ -s $d/patch.diff ] || { echo "$n no patch" >> $L; continue; }
   if ! git -C /repo apply --check $PWD/$d/patch.diff 2>/dev/null; then
     if git -C /repo apply --3way $PWD/$d/patch.diff >/dev/null 2>&1 && git -C /repo diff --quiet --diff-filter=U; then :; else
